@@ -266,11 +266,16 @@ impl Check for C15 {
         vec![
             Phase { name: "boundary lattice (every listed integer x every position x every encoding)", cases: lattice().len() as u64, exhaustive: true },
             Phase { name: "log-uniform samples over [-2^64, 2^64-1] x every position x every encoding", cases: scale(if q { 16000 } else { 400000 }, b), exhaustive: false },
+            Phase { name: "birthday: 2^18 pairwise distinct 64-bit integer labels in a header / key / claims map (decode), header / key (encode)", cases: 5, exhaustive: true },
         ]
     }
     fn run_case(&self, ctx: &mut Ctx, phase: usize, idx: u64) {
         let pos = positions();
         match phase {
+            2 => {
+                let w = [1u64, 3, 5, 8, 10][idx as usize];
+                super::common::birthday_case(ctx, w);
+            }
             0 => {
                 let n = lattice()[idx as usize];
                 check_n(ctx, n, &pos, true);
@@ -285,7 +290,7 @@ impl Check for C15 {
         }
     }
     fn rule(&self) -> String {
-        "integers n from a boundary lattice (0, +-1, 23/24, 2^8, 2^16, 2^32, 2^63, 2^64 boundaries +-2; every power of two +-1 of both signs; registered identifiers shifted by 2^8, 2^16, 2^32, 2^63, 2^64 and sign-flipped: the aliases a truncating or wrapping conversion would create) plus log-uniform samples over [-2^64, 2^64-1], each planted at 70 positions (bare and registry label types, header/key/claims labels, alg in header (also inside a protected bstr), key and KDF context, kty, content type, crit and key_ops elements, party nonces, exp/nbf/iat, key data length (also beside a protected header naming each registered algorithm, for small n and the extremes), and uninterpreted extra values incl. nested) in every encoding (all head widths >= minimal, bignum with 0-3 leading zeros); every header-map and key-map case is repeated inside 28 header carriers (the protected / unprotected buckets of every structure, counter signatures in bare and array form at first and later positions and two levels deep, later signers and recipients) and 4 key-set positions. Oracle: the reference model's verdict for that position (exact value, or out-of-range error when n is the only fault, or another stated reason such as unregistered), extras preserved exactly, accepted values re-encode to an integer that reads back as n. Non-trivial = distinct (position, n).".into()
+        "integers n from a boundary lattice (0, +-1, 23/24, 2^8, 2^16, 2^32, 2^63, 2^64 boundaries +-2; every power of two +-1 of both signs; registered identifiers shifted by 2^8, 2^16, 2^32, 2^63, 2^64 and sign-flipped: the aliases a truncating or wrapping conversion would create) plus log-uniform samples over [-2^64, 2^64-1], each planted at 70 positions (bare and registry label types, header/key/claims labels, alg in header (also inside a protected bstr), key and KDF context, kty, content type, crit and key_ops elements, party nonces, exp/nbf/iat, key data length (also beside a protected header naming each registered algorithm, for small n and the extremes), and uninterpreted extra values incl. nested) in every encoding (all head widths >= minimal, bignum with 0-3 leading zeros); every header-map and key-map case is repeated inside 28 header carriers (the protected / unprotected buckets of every structure, counter signatures in bare and array form at first and later positions and two levels deep, later signers and recipients) and 4 key-set positions. Oracle: the reference model's verdict for that position (exact value, or out-of-range error when n is the only fault, or another stated reason such as unregistered), extras preserved exactly, accepted values re-encode to an integer that reads back as n. Birthday workload: 2^18 pairwise distinct labels (8-character texts / 64-bit integers / private-use integers) in one map must all be accepted and come back in order (a duplicate detector keyed on anything shorter than the label would report a duplicate that is not there). Non-trivial = distinct (position, n).".into()
     }
     fn assumptions(&self) -> Vec<String> {
         super::std_assumptions()
